@@ -5,6 +5,7 @@ package c14
 import (
 	"fmt"
 	"runtime"
+	"sort"
 	"testing"
 	"unsafe"
 
@@ -22,7 +23,7 @@ func init() { keepResult = checker.Keep }
 func TestMain(m *testing.M) { vk.Main(m, "C14") }
 
 type Case struct {
-	Op     string       `json:"op"`            // join | getw | slice | maxslice | maxgetw | maxjoin
+	Op     string       `json:"op"`            // join | getw | slice | maxslice | maxgetw | maxjoin | bigjoin | bigslice
 	Max    int          `json:"max,omitempty"` // maxslice/maxgetw/maxjoin: description of the maximum bitmap (exactly 2^25 words = 2^31 bits, gen.UseMax) / of the maximum value list
 	W      int32        `json:"w,omitempty"`
 	Values vk.Words     `json:"values,omitempty"`
@@ -32,6 +33,30 @@ type Case struct {
 	From   int32        `json:"from,omitempty"`
 	To     int32        `json:"to,omitempty"`
 	Class  string       `json:"class,omitempty"`
+	N      int          `json:"n,omitempty"`      // bigjoin: the number of values; value i is bigVal(Key, i, W)
+	Key    vk.U64       `json:"key,omitempty"`    // bigjoin
+	Sparse *SparseBM    `json:"sparse,omitempty"` // bigslice: the bitmap
+}
+
+// SparseBM describes a bitmap of N words (1 <= N <= 2^25) compactly: word Idx[k] is W[k], every other word is 0. It is
+// realised on the process-wide 2^25-word array (gen.UseMaxCustom) cut to N words; indexes >= N are foreign words
+// BEHIND the end of the bitmap (inside the capacity of the slice), not part of it.
+type SparseBM struct {
+	N   int      `json:"n"`
+	Idx []int32  `json:"idx"` // strictly ascending
+	W   vk.Words `json:"w"`
+}
+
+func (s *SparseBM) valid() bool {
+	if s == nil || s.N < 1 || s.N > gen.MaxWords || len(s.Idx) != len(s.W) {
+		return false
+	}
+	for k, x := range s.Idx {
+		if x < 0 || int(x) >= gen.MaxWords || (k > 0 && x <= s.Idx[k-1]) {
+			return false
+		}
+	}
+	return true
 }
 
 // ListSpec describes a value list for Join compactly; Expand is a pure function of it and the width.
@@ -146,12 +171,19 @@ var widths = []int32{1, 2, 4, 8, 16, 32, 64}
 
 var checker = &vk.Checker[Case]{
 	ID: "C14",
-	Rule: "Join: width in {1,2,4,8,16,32,64} x value lists whose values carry bits above the width (random, all-ones, 1<<w) of length 0..200, and described lists of length 0..20000 (thorough 120000; half of them <= 40, the others uniform over the octaves) in which only SOME values carry bits above the width (one value, one residue of the index mod 2/3/4/5/8/16/64, random residue sets, all, none); result checked bit by bit, length ceil(len*w/64), Getw at every index; Getw alone on arbitrary bitmaps at every index; " +
+	Rule: "Join: width in {1,2,4,8,16,32,64} x value lists whose values carry bits above the width (random, all-ones, 1<<w) of length 0..200, and described lists of length 0..20000 (thorough 120000; half of them <= 40, the others uniform over the octaves) in which only SOME values carry bits above the width (one value, one residue of the index mod 2/3/4/5/8/16/64, random residue sets, all, none); result checked bit by bit, length ceil(len*w/64), Getw at every index; Getw alone on arbitrary bitmaps at every index (the bitmap Getw was given must read as before afterwards); " +
 		"Slice on bitmaps <= 12 words (thorough <= 100) and on described bitmaps of up to 8192 words (thorough 32768) x ranges 0<=from<=to<=64*len (aligned, unaligned, empty, multi-word, lengths from every octave, ending at the end of the bitmap): length ceil((to-from)/64), bit j = input bit from+j, remaining bits 0, input unchanged. " +
 		"Grid: Slice on 12 bitmaps of <= 3 words x all (from,to); Join/Getw all widths x lengths 0..20 x 3 value styles; Join widths < 64 x lengths 0..24,31..33,63..65 x bits above the width at one index residue mod 2/3/4/8 or in one value; Join list lengths and Slice range lengths 2^k-1, 2^k, 2^k+1 and two more per octave (lists 2^5..2^16 and 65535..100001 values, ranges 2^9..2^20 bits at 5 start alignments each). " +
+		"LONG INPUTS (last in the process): Join lists of 2^k-1, 2^k, 2^k+1 and one odd pseudo-random length per octave from 2^17 to 2^25 values, value i a cheap pure function of (key, i, w) with bits above the width at indexes 0, 2, 3 mod 4 and runs of 32 zero values " +
+		"(quick: every width below 2^19 values, then 3, 2, 1 widths per length rotating with the seed and 2..3 lengths per octave from 2^22 on, 2^25-1 and 2^25 values thorough only); checked: length, Getw at the first, the last 130 and 512 sampled indexes, every result word for lists <= 2^20 values (thorough: all lists), " +
+		"otherwise the first and last 4 words, the words where the list or the result would be cut into 2..64 equal parts and 3000 sampled words; the list must read as before (sampled likewise). " +
+		"Slice ranges of 2^21 bits and more on sparsely described bitmaps (non-zero words around both ends of the range, behind the end of the bitmap, at cut points and at random places inside; oracle from the description): per octave the lengths with length mod 64 in {63,0,1,31,32,33} " +
+		"(2^k-1, 2^k, 2^k+1 or pseudo-random in the octave), starts 0/1/17/31/32/33/62/63 or random bits into a word, in the first words or anywhere on a 2^25-word array, ending 0, 1, 2 or many words before the end of the bitmap; " +
+		"quick: all six residues for 2^21..2^23 bits, three / two / one of them (rotating with the seed) for 2^24 / 2^25 / 2^26, thorough: all six up to 2^30 bits at two starts. " +
+		"The process that varies GOMAXPROCS leaves the last phase out and evaluates in its grid lists of 2^17+3 .. 2^21+5 values and ranges of 2^21 and 2^22 bits under every setting, lists up to 2^24+1 values and ranges up to 2^25 bits under one setting each (thorough: all under every setting). " +
 		"Arguments reach the library as an exact-size copy, a reused buffer with guarded spare capacity, or a window inside a larger buffer of non-zero words; empty arguments also as nil. " +
-		"Also the MAXIMUM bitmap - exactly 2^25 words = 2^31 bits, the largest one int32 positions address (three sparse descriptions, oracle from the description): Slice of short ranges ending at the top and around every set word and of one range longer than 2^31-64 bits (thorough: three), Getw at the last indexes of every width; Join of 2^25 64-bit values (that bitmap) and of 2^26 sparse 32-bit values (thorough also 2^27 x 16, 2^28 x 8): 2^31 result bits. " +
-		"A result may share memory with the argument (not forbidden), not with the library: results are re-read after later calls. Non-trivial: Join with w>=4, >=2 values and a value with bits above w; Slice with unaligned from spanning >= 2 input words; Getw with w>=4 on a bitmap with both 0 and 1 bits; every maximum-size case. Distinct by hash of the case.",
+		"Also the MAXIMUM bitmap - exactly 2^25 words = 2^31 bits, the largest one int32 positions address (three sparse descriptions, oracle from the description): Slice of short ranges ending at the top and around every set word and of one range longer than 2^31-64 bits (start 0, 1, 7, 31 or 62, length mod 64 one of 63, 62, 33, 32, 31, 1 by the seed; thorough: three), Getw at the last indexes of every width; Join of 2^25 64-bit values (that bitmap) and of 2^26 sparse 32-bit values (thorough also 2^27 x 16, 2^28 x 8): 2^31 result bits. " +
+		"A result may share memory with the argument (not forbidden), not with the library: results are re-read after later calls. Non-trivial: Join with w>=4, >=2 values and a value with bits above w (long lists: w>=4); long Slice ranges with unaligned from; Slice with unaligned from spanning >= 2 input words; Getw with w>=4 on a bitmap with both 0 and 1 bits; every maximum-size case. Distinct by hash of the case.",
 	Check:    check,
 	Classify: classify,
 }
@@ -262,6 +294,7 @@ func checkJoinShaped(keep []uint64, w int32, shape int) (f *vk.Failure) {
 			return vk.Failf("join-bit", "Join(values=%s, w=%d): bit %d (beyond the %d bits of the values) = 1, want 0", showWords(keep), w, q, total)
 		}
 	}
+	expect := append([]uint64(nil), r...) // (verified bit by bit above)
 	for i := range keep {
 		var g uint64
 		if f := vk.TryF(func() string { return fmt.Sprintf("Getw(Join(%d values, w=%d), i=%d, w=%d)", len(keep), w, i, w) }, func() { g = bitmap.Getw(r, int32(i), w) }); f != nil {
@@ -269,6 +302,11 @@ func checkJoinShaped(keep []uint64, w int32, shape int) (f *vk.Failure) {
 		}
 		if g != low(keep[i], w) {
 			return vk.Failf("join-getw", "Getw(Join(values=%s,w=%d), %d, %d) = %#x, want %#x", showWords(keep), w, i, w, g, low(keep[i], w))
+		}
+	}
+	for i := range expect { // Getw reads: the bitmap it was given must read as before
+		if r[i] != expect[i] {
+			return vk.Failf("getw-mutates", "Getw(Join(values=%s,w=%d), i, %d) for i = 0..%d changed word %d of the bitmap from %#x to %#x", showWords(keep), w, w, len(keep)-1, i, expect[i], r[i])
 		}
 	}
 	for i := range keep {
@@ -285,7 +323,6 @@ func checkJoinShaped(keep []uint64, w int32, shape int) (f *vk.Failure) {
 	if shared && reused {
 		return nil
 	}
-	expect := append([]uint64(nil), r...)
 	if !shared {
 		vk.ScribbleU64(r)
 	}
@@ -332,6 +369,11 @@ func checkGetw(keep []uint64, w int32) *vk.Failure {
 		}
 		if g != want {
 			return vk.Failf("getw", "Getw(bm=%s, i=%d, w=%d) = %#x, want %#x", showWords(keep), i, w, g, want)
+		}
+	}
+	for i := range keep { // Getw reads: the bitmap it was given must read as before
+		if words[i] != keep[i] {
+			return vk.Failf("getw-mutates", "Getw(bm=%s, i, %d) for i = 0..%d changed word %d of the bitmap to %#x", showWords(keep), w, n-1, i, words[i])
 		}
 	}
 	return nil
@@ -627,8 +669,245 @@ func checkMaxJoin(v int, w int32) (f *vk.Failure) {
 	return nil
 }
 
+// ---- Join of long lists (100002 .. 2^25 values), checked sparsely.
+//
+// The list is described by (N, Key, W): value i is bigVal(Key, i, W), a cheap pure function, so that a list of millions
+// of values costs nothing to write down and an expected result word is computed from 64/W values on demand. The list
+// lives in a buffer of its own that is filled again for every case.
+
+// bigVal: pseudo-random low bits; whether a value carries bits above the width goes by its index modulo 4 (0: random
+// bits above, 1: none - the value fits, 2: only bit w, 3: bit 63 and random ones); every eighth run of 32 values is all zero.
+func bigVal(key uint64, i int, w int32) uint64 {
+	x := (uint64(i) + key) * 0x9e3779b97f4a7c15
+	x ^= x >> 29
+	m := &bigMasks[w&127][i&3]
+	x = x&m[0] | m[1]
+	if i>>5&7 == 6 {
+		x = 0
+	}
+	return x
+}
+
+// bigMasks[w][i&3] = {and, or}: what bigVal keeps of / adds to the pseudo-random word for width w.
+var bigMasks = func() (t [128][4][2]uint64) {
+	for w := 1; w <= 64; w++ {
+		fit := ^uint64(0)
+		if w < 64 {
+			fit = 1<<uint(w) - 1
+		}
+		t[w] = [4][2]uint64{{^uint64(0), 0}, {fit, 0}, {fit, (fit + 1)}, {^uint64(0), 1 << 63}}
+	}
+	return
+}()
+
+var bigVals []uint64
+
+func bigList(n int) []uint64 {
+	if cap(bigVals) < n {
+		c := 1 << 18
+		for c < n {
+			c <<= 1
+		}
+		bigVals = nil
+		bigVals = make([]uint64, c)
+	}
+	return bigVals[:n:n]
+}
+
+// chunkings: into how many equal parts an implementation may cut a long input (the GOMAXPROCS settings of the process
+// that varies them, and the small numbers): the words at those cuts are always among the sampled ones.
+var chunkings = []int{2, 3, 4, 5, 6, 7, 8, 12, 16, 17, 24, 32, 33, 64}
+
+const bigJoinFull = 1 << 20 // lists up to this length (thorough: all lists) have every result word checked
+
+func checkBigJoin(n int, w int32, key uint64) *vk.Failure {
+	if n < 1 || n > gen.MaxWords || int64(n)*int64(w) > 1<<31 {
+		return nil
+	}
+	values := bigList(n)
+	for i := range values {
+		values[i] = bigVal(key, i, w)
+	}
+	var r []uint64
+	if n >= 1<<23 {
+		defer func() { r = nil; runtime.GC() }() // a result of many MiB is released before the next huge case allocates
+	}
+	if f := vk.Try(fmt.Sprintf("Join(%d values (described, key %#x), w=%d)", n, key, w), func() { r = bitmap.Join(values, w) }); f != nil {
+		return f
+	}
+	total := n * int(w)
+	nw := (total + 63) / 64
+	if len(r) != nw {
+		return vk.Failf("join-len", "Join(%d values (described, key %#x), w=%d) has %d words, want %d", n, key, w, len(r), nw)
+	}
+	full := n <= bigJoinFull || vk.Thorough()
+	// Getw: the first values, the last 130 (the last two result words and more, whatever the width), a sample in between
+	probeV := func(i int) *vk.Failure {
+		if i < 0 || i >= n {
+			return nil
+		}
+		var g uint64
+		if f := vk.TryF(func() string { return fmt.Sprintf("Getw(Join(%d values, w=%d), i=%d, w=%d)", n, w, i, w) }, func() { g = bitmap.Getw(r, int32(i), w) }); f != nil {
+			return f
+		}
+		if want := low(bigVal(key, i, w), w); g != want {
+			return vk.Failf("join-getw", "Getw(Join(%d values (described, key %#x), w=%d), %d, %d) = %#x, want %#x (value %d is %#x)", n, key, w, i, w, g, want, i, bigVal(key, i, w))
+		}
+		return nil
+	}
+	for i := 0; i < 4; i++ {
+		if f := probeV(i); f != nil {
+			return f
+		}
+	}
+	for i := n - 130; i < n; i++ {
+		if f := probeV(i); f != nil {
+			return f
+		}
+	}
+	for k := 0; k < 512; k++ {
+		if f := probeV(int(vk.Mix(key^uint64(k)*0x2545f4914f6cdd1d) % uint64(n))); f != nil {
+			return f
+		}
+	}
+	// result words against the description (bits beyond the last value must be 0)
+	per := 64 / int(w)
+	probeW := func(j int) *vk.Failure {
+		if j < 0 || j >= nw {
+			return nil
+		}
+		var want uint64
+		for t, i := 0, j*per; t < per && i < n; t, i = t+1, i+1 {
+			want |= low(bigVal(key, i, w), w) << uint(t*int(w))
+		}
+		if r[j] != want {
+			return vk.Failf("join-bit", "Join(%d values (described, key %#x), w=%d): word %d of %d = %#x, want %#x (values %d..%d)", n, key, w, j, nw, r[j], want, j*per, min(j*per+per, n)-1)
+		}
+		return nil
+	}
+	if full {
+		for j := 0; j < nw; j++ {
+			if f := probeW(j); f != nil {
+				return f
+			}
+		}
+	} else {
+		for j := 0; j < 4; j++ {
+			if f := probeW(j); f != nil {
+				return f
+			}
+			if f := probeW(nw - 1 - j); f != nil {
+				return f
+			}
+		}
+		for _, p := range chunkings { // where the list / the result would be cut into p parts
+			for c := 1; c < p; c++ {
+				for _, j := range []int{c * (n / p) * int(w) >> 6, c * ((n + p - 1) / p) * int(w) >> 6, c * (nw / p), c * ((nw + p - 1) / p)} {
+					for d := -1; d <= 1; d++ {
+						if f := probeW(j + d); f != nil {
+							return f
+						}
+					}
+				}
+			}
+		}
+		for k := 0; k < 3000; k++ {
+			if f := probeW(int(vk.Mix(key+uint64(k)*0x9e3779b97f4a7c15) % uint64(nw))); f != nil {
+				return f
+			}
+		}
+	}
+	// the list must read as before (every value when all of the result was checked, else the ends and every 61st value)
+	stride := 61
+	if full {
+		stride = 1
+	}
+	for i := 0; i < n; i++ {
+		if values[i] != bigVal(key, i, w) {
+			return vk.Failf("join-mutates", "Join modified values[%d] of the list of %d values (w=%d): %#x, was %#x", i, n, w, values[i], bigVal(key, i, w))
+		}
+		if i >= 256 && i < n-256-stride {
+			i += stride - 1
+		}
+	}
+	// (the result is neither written to nor kept under watch: up to 256 MiB; lists of ordinary length are, see checkJoin)
+	return nil
+}
+
+// ---- Slice of long ranges (2^21 bits and more) of sparsely described bitmaps on the shared 2^25-word array.
+
+func checkBigSlice(s *SparseBM, from, to int32) *vk.Failure {
+	if !s.valid() || from < 0 || from > to || int64(to) > 64*int64(s.N) {
+		return nil
+	}
+	set := make(map[int]uint64, len(s.Idx))
+	for k, x := range s.Idx {
+		if s.W[k] != 0 {
+			set[int(x)] = s.W[k]
+		}
+	}
+	words := gen.UseMaxCustom(set)[:s.N]
+	n := int64(to) - int64(from)
+	var r []uint64
+	if n > 1<<28 {
+		defer func() { r = nil; runtime.GC() }() // a result of many MiB is released before the next huge case allocates
+	}
+	if f := vk.Try(fmt.Sprintf("Slice(%d words (sparse description), %d, %d)", s.N, from, to), func() { r = bitmap.Slice(words, from, to) }); f != nil {
+		return f
+	}
+	if int64(len(r)) != (n+63)/64 {
+		return vk.Failf("slice-len", "Slice(%d-word bitmap (sparse description), %d, %d) has %d words, want %d", s.N, from, to, len(r), (n+63)/64)
+	}
+	want := map[int]uint64{} // the expected result, from the description alone
+	for k, x := range s.Idx {
+		if int(x) >= s.N {
+			continue
+		}
+		for b := 0; b < 64; b++ {
+			if p := int64(x)*64 + int64(b); s.W[k]>>uint(b)&1 == 1 && p >= int64(from) && p < int64(to) {
+				j := p - int64(from)
+				want[int(j>>6)] |= 1 << uint(j&63)
+			}
+		}
+	}
+	seen := 0
+	for j, x := range r {
+		if x == 0 {
+			continue
+		}
+		if x != want[j] {
+			return vk.Failf("slice-bit", "Slice(%d-word bitmap (sparse description), %d, %d): word %d of %d = %#x, want %#x", s.N, from, to, j, len(r), x, want[j])
+		}
+		seen++
+	}
+	if seen != len(want) {
+		js := make([]int, 0, len(want))
+		for j := range want {
+			js = append(js, j)
+		}
+		sort.Ints(js)
+		for _, j := range js {
+			if r[j] != want[j] {
+				return vk.Failf("slice-bit", "Slice(%d-word bitmap (sparse description), %d, %d): word %d of %d = %#x, want %#x", s.N, from, to, j, len(r), r[j], want[j])
+			}
+		}
+	}
+	if k, bad := gen.MaxBitmapDamage(); bad {
+		return vk.Failf("slice-mutates", "Slice modified word %d of the %d-word bitmap (or of the array behind it)", k, s.N)
+	}
+	// (the result is not written to: a zero-copy view of the shared array would be legitimate, see checkJoin)
+	return nil
+}
+
 func check(c Case) *vk.Failure {
 	switch c.Op {
+	case "bigjoin":
+		if c.W < 1 || c.W > 64 || 64%c.W != 0 {
+			return nil
+		}
+		return checkBigJoin(c.N, c.W, uint64(c.Key))
+	case "bigslice":
+		return checkBigSlice(c.Sparse, c.From, c.To)
 	case "maxslice":
 		return checkMaxSlice(c.Max, c.From, c.To)
 	case "maxgetw":
@@ -664,6 +943,16 @@ func classify(c Case) (bool, []string) {
 		return true, append(labels, "maximum-bitmap(2^25 words)")
 	case "maxjoin":
 		return true, append(labels, "maximum-list(2^31 result bits)")
+	case "bigjoin":
+		if c.N < 1 || c.W < 1 {
+			return false, append(labels, "invalid")
+		}
+		// (values at indexes 0, 2 and 3 modulo 4 carry bits above the width when w < 64)
+		return c.W >= 4, append(labels, fmt.Sprintf("w:%d", c.W), "bits-above-width", "bits-above-width:some-values-only", "join-len:"+octave(c.N))
+	case "bigslice":
+		if !c.Sparse.valid() || c.From > c.To {
+			return false, append(labels, "invalid")
+		}
 	case "join":
 		labels = append(labels, fmt.Sprintf("w:%d", c.W))
 		vals := c.values()
@@ -840,6 +1129,181 @@ func genCase(t *rapid.T) Case {
 	return Case{Op: "slice", Words: words, From: int32(from), To: int32(to), Class: style}
 }
 
+// ---------------------------------------------------------------- long inputs: Join lists of 2^17 .. 2^25 values, Slice ranges of 2^21 .. 2^30 bits
+
+var sliceResidues = []int{63, 0, 1, 31, 32, 33} // the classes of the range length modulo 64 that matter
+
+// bigSliceCase: a range of 2^k <= n < 2^(k+1) bits with n%64 == res on a sparsely described bitmap. exact: the length is
+// 2^k-1, 2^k or 2^k+1 (res 63, 0, 1), else pseudo-random inside the octave. The range starts shift bits into a word,
+// in one of the first words or anywhere on the 2^25-word array (place), and ends 0, 1, 2 or many words before the end
+// of the bitmap; never within 200 bits of position 2^31-1 (the maximum-bitmap cases are there). Non-zero words: around
+// both ends of the range (inside and outside of it, all ones or random), behind the end of the bitmap, at random
+// places inside and where the range would be cut into 2..16 equal parts.
+func bigSliceCase(key uint64, k, res int, exact bool, shift, place int) Case {
+	rnd := func(j uint64) uint64 { return vk.Mix(key + j*0x9e3779b97f4a7c15) }
+	n := int64(1)<<uint(k) + int64(rnd(1)%(1<<uint(k)))&^63 | int64(res)
+	if exact && (res == 63 || res <= 1) {
+		n = int64(1)<<uint(k) + int64((res+1)&63) - 1
+	}
+	if limit := gen.MaxTop - 200 - 64*3 - int64(shift); n > limit {
+		n -= (n - limit + 63) / 64 * 64
+	}
+	maxFw := (gen.MaxTop - 200 - n - int64(shift)) / 64
+	var fw int64
+	switch place {
+	case 0:
+		fw = 1 + int64(rnd(2)%3)
+	case 1:
+		fw = int64(rnd(2) % uint64(maxFw+1))
+	}
+	fw = min(fw, maxFw)
+	from := 64*fw + int64(shift)
+	to := from + n
+	N := (to+63)/64 + []int64{0, 1, 2, int64(rnd(3) % 1000)}[rnd(4)&3]
+	N = min(N, gen.MaxWords)
+	set := map[int64]uint64{}
+	word := func(i int64, j uint64) {
+		if i < 0 || i >= gen.MaxWords {
+			return
+		}
+		x := rnd(j<<32 | uint64(i))
+		if x%3 == 0 {
+			x = ^uint64(0)
+		}
+		set[i] = x | 1<<(x>>58)
+	}
+	fromW, lastW, nW := from>>6, (to-1)>>6, (n+63)/64
+	for d := int64(-1); d <= 2; d++ {
+		word(fromW+d, 5)
+		word(lastW-1+d, 6)
+	}
+	word(N, 7) // foreign words behind the end of the bitmap
+	if rnd(8)&1 == 0 {
+		word(N+1, 7)
+	}
+	for j := uint64(0); j < 24; j++ {
+		word(fromW+int64(rnd(100+j)%uint64(nW)), 9)
+	}
+	for _, p := range []int64{2, 3, 4, 5, 7, 8, 16} {
+		for c := int64(1); c < p; c++ {
+			word(fromW+c*(nW/p), 10)
+			if rnd(uint64(200+p*16+c))&1 == 0 {
+				word(fromW+c*(nW/p)-1, 10)
+			}
+		}
+	}
+	sp := &SparseBM{N: int(N)}
+	for i := range set {
+		sp.Idx = append(sp.Idx, int32(i))
+	}
+	sort.Slice(sp.Idx, func(a, b int) bool { return sp.Idx[a] < sp.Idx[b] })
+	for _, i := range sp.Idx {
+		sp.W = append(sp.W, set[int64(i)])
+	}
+	return Case{Op: "bigslice", Sparse: sp, From: int32(from), To: int32(to), Class: "long-range"}
+}
+
+// bigSliceSweep: range lengths of every octave from 2^21 bits up. The library copies bit by bit (2^27 bits: 0.2 s), so the
+// quick tier takes all six residues of the length up to 2^23 bits, then three (2^24), two (2^25) and one (2^26) of them,
+// rotating with the octave and the seed, and leaves 2^27..2^30 to the thorough tier (all six residues, two starts each).
+func bigSliceSweep(t *testing.T) {
+	shifts := []int{1, 63, 0, 31, 33, 17, 32, 62}
+	rot := int(vk.Seed() % 8)
+	for k := 21; k <= vk.Pick(26, 30); k++ {
+		for ri, res := range sliceResidues {
+			if pick := (ri + k + int(vk.Seed())) % 6; !vk.Thorough() && (k == 24 && pick%2 != 0 || k == 25 && pick%3 != 0 || k == 26 && pick != 0) {
+				continue
+			}
+			for rep := 0; rep < vk.Pick(1, 2); rep++ {
+				rot++
+				shift := shifts[rot%len(shifts)]
+				if rot%5 == 4 {
+					shift = 2 + int(vk.Mix(uint64(rot)+vk.Seed())%60)
+				}
+				key := vk.Mix(vk.Seed()*1000003 + uint64(k)<<8 + uint64(ri)<<4 + uint64(rep))
+				checker.Run(t, bigSliceCase(key, k, res, (k+int(vk.Seed())+rep)%2 == 0, shift, rot%3%2))
+			}
+		}
+	}
+}
+
+// bigJoinLengths: 2^k-1, 2^k, 2^k+1 and one odd pseudo-random length of the octave [2^k, 2^(k+1)).
+func bigJoinLengths(k int) []int {
+	return []int{1<<uint(k) - 1, 1 << uint(k), 1<<uint(k) + 1, 1<<uint(k) + 1 + int(vk.Mix(uint64(k)*1009+vk.Seed())%(1<<uint(k)-2)) | 1}
+}
+
+func bigJoinCase(n int, w int32) Case {
+	return Case{Op: "bigjoin", N: n, W: w, Key: vk.U64(vk.Mix(vk.Seed()*1000003 + uint64(n)*131 + uint64(w))), Class: "long-list"}
+}
+
+// bigJoinSweep: list lengths of every octave from 2^17 to 2^25 values (the library takes some 3 ns per value). Quick: four
+// lengths per octave at every width below 2^19 values, at three (2^19, 2^20) and two (2^21) widths, then 2^k-1, 2^k+1 and
+// the pseudo-random length at one width (2^22), and two of those three at one width (2^23, 2^24); which widths rotates
+// with the seed. Thorough: every length at every width, and 2^25-1 and 2^25 values.
+func bigJoinSweep(t *testing.T) {
+	rot := int(vk.Seed() % 7)
+	for k := 17; k <= 24; k++ {
+		ns := bigJoinLengths(k)
+		if !vk.Thorough() {
+			switch {
+			case k >= 23:
+				ns = []int{ns[2*((k+int(vk.Seed()))%2)], ns[3]}
+			case k >= 22:
+				ns = []int{ns[0], ns[2], ns[3]}
+			}
+		} else if k == 24 {
+			ns = append(ns, 1<<25-1, 1<<25)
+		}
+		for _, n := range ns {
+			nWidths := 7
+			if !vk.Thorough() {
+				switch {
+				case k >= 22:
+					nWidths = 1
+				case k >= 21:
+					nWidths = 2
+				case k >= 19:
+					nWidths = 3
+				}
+			}
+			for j := 0; j < nWidths; j++ {
+				rot++
+				w := widths[rot%7]
+				if int64(n)*int64(w) > 1<<31 {
+					continue
+				}
+				checker.Run(t, bigJoinCase(n, w))
+			}
+		}
+	}
+	bigVals = nil // (a replay allocates it again)
+	runtime.GC()
+}
+
+// longUnderProcs: the process that varies GOMAXPROCS leaves out TestLast, so it meets a few long lists and ranges in its
+// grid: the shortest ones under every setting, longer ones under one setting each (thorough: all under every setting).
+func longUnderProcs(t *testing.T) {
+	sd := int(vk.Seed())
+	for li, n := range []int{1<<17 + 3, 1<<18 + 3, 1<<19 - 1, 1<<20 + 1, 1<<21 + 5, 1<<22 + 1, 1<<23 - 1, 1<<24 + 1} {
+		c := bigJoinCase(n, widths[(li*3+sd)%7])
+		if li <= 4 || vk.Thorough() {
+			vk.ProcsSweep(func() { checker.Run(t, c) })
+		} else {
+			checker.Run(t, c)
+		}
+	}
+	bigVals = nil
+	runtime.GC()
+	for li, kr := range [][3]int{{21, 0, 1}, {21, 33, 63}, {22, 63, 31}, {23, 1, 0}, {24, 32, 33}, {25, 31, 62}} {
+		c := bigSliceCase(vk.Mix(vk.Seed()*1000003+uint64(li)+0x9c), kr[0], kr[1], (li+sd)%2 == 0, kr[2], li%2)
+		if li <= 2 || vk.Thorough() {
+			vk.ProcsSweep(func() { checker.Run(t, c) })
+		} else {
+			checker.Run(t, c)
+		}
+	}
+}
+
 func TestRegress(t *testing.T) { checker.Regress(t) }
 
 func TestProp(t *testing.T) { checker.Prop(t, genCase) }
@@ -984,8 +1448,11 @@ func TestGrid(t *testing.T) {
 			}
 		}
 	}
+	if vk.ProcsVaried() {
+		longUnderProcs(t)
+	}
 	vk.MarkExhaustive("Slice: 12 bitmaps of <= 3 words x all (from,to); Join: all widths x lengths 0..20 x 3 value styles; Getw: all widths on those results at every index")
-	vk.SetExtra("sweeps", "Join: widths < 64 x lengths 0..24,31..33,63..65 x bits above the width at one residue of the index mod 2/3/4/8 or in one value; list lengths 2^k-1,2^k,2^k+1 and 2 more per octave for k=5..15 plus 65535..100001; Slice range lengths likewise for k=9..19 x 5 start alignments")
+	vk.SetExtra("sweeps", "Join: widths < 64 x lengths 0..24,31..33,63..65 x bits above the width at one residue of the index mod 2/3/4/8 or in one value; list lengths 2^k-1,2^k,2^k+1 and 2 more per octave for k=5..15 plus 65535..100001; Slice range lengths likewise for k=9..19 x 5 start alignments; long inputs (TestLast; a few in the grid of the process that varies GOMAXPROCS): Join lists of 2^17..2^25 values, Slice ranges of 2^21..2^26 (thorough 2^30) bits x length mod 64 in {63,0,1,31,32,33}")
 }
 
 // TestLast runs at the very end of the process: huge inputs (the maximum bitmap / string) and the regression cases of that size come last, so that
@@ -996,6 +1463,9 @@ func TestLast(t *testing.T) {
 	top := int32(gen.MaxTop)
 	gen.UseMax(0)
 	maxValues(int64(1) << 31 / int64(vk.Pick(32, 8))) // (both huge inputs are allocated before anything huge has been freed: fresh, untouched pages)
+	// long lists and long ranges below the maximum, in ascending size
+	bigJoinSweep(t)
+	bigSliceSweep(t)
 	for v := 0; v < gen.MaxVariants; v++ {
 		gen.UseMax(v)
 		rs := [][2]int32{{top - 100, top}, {top - 64, top}, {top - 63, top}, {top - 62, top}, {top - 1, top}, {top, top}, {top - 130, top - 3}, {top - 195, top}, {top - 255, top}, {top - 129, top - 1}, {top - 4000, top}, {0, 130}}
@@ -1013,8 +1483,10 @@ func TestLast(t *testing.T) {
 	}
 	// the whole bitmap (the library copies bit by bit over 2^31 positions: seconds). Quick: one range longer than
 	// 2^31-64 bits, start and description chosen by the seed; thorough: two more
+	// (from + (top - to) <= 62 keeps the length above 2^31-64; the length modulo 64 is 63, 62, 32, 1, 33, 31, 31, 1)
 	q := vk.Mix(vk.Seed() ^ 0xc14)
-	checker.Run(t, Case{Op: "maxslice", Max: int(q % gen.MaxVariants), From: []int32{0, 1, 31, 62}[q>>8&3], To: top, Class: "grid-maximum-whole"})
+	whole := [][2]int32{{0, top}, {1, top}, {31, top}, {62, top}, {0, top - 30}, {0, top - 32}, {1, top - 31}, {7, top - 55}}[q>>8&7]
+	checker.Run(t, Case{Op: "maxslice", Max: int(q % gen.MaxVariants), From: whole[0], To: whole[1], Class: "grid-maximum-whole"})
 	if vk.Thorough() {
 		checker.Run(t, Case{Op: "maxslice", Max: 0, From: 0, To: top, Class: "grid-maximum-whole"})
 		checker.Run(t, Case{Op: "maxslice", Max: 2, From: 63, To: top, Class: "grid-maximum-whole"})
